@@ -45,6 +45,10 @@ def run_instance(inst, tier):
     paths = list(PATHS[inst["kind"]])
     if 2 <= inst["arrangements"] <= 24:
         paths.append(f"{inst['kind']}-direct-twice")   # second generation on the same generator object
+        paths.append(f"{inst['kind']}-direct-shrunk")  # ... after the caller's list lost two zero rows in place
+    paths.append(f"{inst['kind']}-direct-grown")       # ... after the caller's (then all-zero) list was refilled in place
+    if inst["kind"] == "fast":
+        paths.append("network-direct-grown")
     for path in paths:
         first = []
         sigs = {}
@@ -62,7 +66,7 @@ def run_instance(inst, tier):
         res.transitions += st.points + st.leaves
         res.revalidated += st.rechecked
         res.count(f"leaves:{path}", st.leaves)
-        if st.leaves != inst["arrangements"] and not path.endswith("twice"):
+        if st.leaves != inst["arrangements"] and len(path.split("-")) == 2:
             res.count("instances_where_leaves_differ_from_multiset_arrangements")
         if first:
             (key, msg), choices, calls = first[0]
@@ -71,7 +75,7 @@ def run_instance(inst, tier):
                           calls=calls, snippet=gen_common.gen_snippet(
                               {k: inst[k] for k in ("kind", "cfg", "cfg_name", "jds")}, tier, path, calls))
         kind, how = path.split("-")[:2]
-        if path.endswith("twice"):
+        if len(path.split("-")) > 2:
             continue
         if how == "direct":
             reference[kind] = sigs
